@@ -45,6 +45,16 @@ def _c03(run, drv, rng, tier):
             props_c.check_compiled(run, drv, rng, sc, 250, 6, cfgs, "C03")
 
 
+def _c08(run, drv, rng, tier):
+    from . import props_c08
+    props_c08.check(run, drv, rng, tier)
+
+
+def _c11(run, drv, rng, tier):
+    from . import props_c08
+    props_c08.check_c11(run, drv, rng, tier)
+
+
 def _c13(run, drv, rng, tier):
     from . import props_c13
     props_c13.check(run, drv, rng, tier)
@@ -238,5 +248,30 @@ PROPS = {
                 "reader); distinct by expression / literal text",
         "assumptions": FRONT_ASSUME + ["literal syntax of C, Go, Python as modelled in Model/Lit.lean (decimal ints, bool keywords, "
                                        "double-quoted strings with the escapes \\\\ \\\" \\n \\t \\r)"],
+    },
+    "C08": {
+        "modules": ["BpModel.Props.C08"],
+        "theorems": ["Bp.C08.C08_accept_wf", "Bp.C08.C08_uint_width", "Bp.C08.C08_int_width", "Bp.C08.C08_array_cap",
+                     "Bp.C08.C08_limits_tied", "Bp.C08.C08_size_boundaries", "Bp.C08.C08_field_number_boundaries"],
+        "explore": _c08,
+        "correspondence": "front.check (Lean reference of the documented rules) vs bitproto.parser.parse: verdict, rule family, file, line",
+        "rule": "programs with shadowing, dotted paths, imports, constants, options (tools/front.py); ~60% carry exactly one "
+                "violation from a catalogue of 28 kinds (boundary values on both sides of every numeric limit, placement, "
+                "options, references, imports, traditional mode); compared on accept/reject, error-class family, file and "
+                "line; CLI exit status / stderr / absence of output on a sample; distinct by (rule, file, line) and by "
+                "elaborated message types",
+        "assumptions": FRONT_ASSUME + ["the 'iff' against the real compiler rests on the correspondence; the theorems are about the Lean reference"],
+    },
+    "C11": {
+        "modules": ["BpModel.Props.C11"],
+        "theorems": ["Bp.C11.C11_innermost", "Bp.C11.C11_outward", "Bp.C11.C11_no_scope", "Bp.C11.C11_dotted_msg",
+                     "Bp.C11.C11_dotted_import", "Bp.C11.C11_earlier_only", "Bp.C11.C11_elab_uses_resolved"],
+        "explore": _c11,
+        "correspondence": "elaborated type of every message (which definition each name resolved to): real AST vs Lean reference vs harness resolver",
+        "rule": "valid programs over a small name pool so that the same name is declared in several enclosing scopes and in "
+                "imported files (with and without `as`), nested definitions and fields interleaved, dotted paths up to "
+                "length 3; the elaborated (normalised) type of every message is compared three ways; distinct by message "
+                "path and type",
+        "assumptions": FRONT_ASSUME,
     },
 }
